@@ -2107,6 +2107,11 @@ func (m *Machine) processQueue() Result {
 			// TODO optimize process only when ticks change (incl queue tick)
 			// TODO optimize: check sub ctxs also on canceled txs
 			m.processSubscriptions(t)
+		} else if !t.Mutation.IsCheck {
+			// a canceled mutation has been processed too, release its waiters
+			for _, ch := range m.subs.ProcessWhenQueue(m.queueTick) {
+				closeSafe(ch)
+			}
 		}
 
 		t.CleanCache()
